@@ -46,7 +46,16 @@ MANIFEST_NOTE = ("Trusted: Lean kernel (+propext/Classical.choice/Quot.sound), t
                  "binary operations of a history are executed with the object as its own argument as well (A+=A, A=A, A.axpy(k,A), "
                  "A.leftmultiply(A), A.rightmultiply(A)); otherwise two objects of a history never share storage unless the code under "
                  "test makes them (which the check reports). Unary minus of the scalar views is exercised for asMatrix(s)/asVector(s) "
-                 "of a mutable scalar. "
+                 "of a mutable scalar, binary + / - with the view asVector(s) as first operand as well (round five). "
+                 "Translator tolerance (round five): bodies are normalised before the statement shapes are matched - private member "
+                 "helpers without return value / locals are inlined at statement-level calls (arguments substituted), declared locals "
+                 "may carry any name, `const` index locals initialised from an extent are inlined, loop headers `B>i`, `i!=B`, `i+=1`, "
+                 "`L = L op E` for `L op= E`, and for the elementwise DenseVector loops a by-reference range-for / begin()-end() iterator loop "
+                 "over *this (only while begin/end/DenseIterator of densevector.hh have the expected text) are read as the canonical "
+                 "spelling; helpers with results, count-down / while loops, std algorithms, a third form of the in-place products are "
+                 "still reported as no-failing-input-found. tools/translators/tr_c01_selftest.py holds ~60 quiet / loud source edits. "
+                 "A scalar argument that refers into the object being modified (v *= v[0], A *= A[0][0], v.axpy(v[0], w)) is an unstated "
+                 "aliasing precondition of the library, outside the property (scalars are values). "
                  "Object histories use FieldVector<K,1..3>, DynamicVector 1..4, FieldMatrix 1x1 and 2x2, DynamicMatrix up to 3x3, "
                  "DiagonalMatrix<K,2>; transposed views of a 2x2 FieldMatrix, DynamicMatrix, DiagonalMatrix<K,2>, ScalarMatrixView.")
 TECHNIQUE = ("Lean 4 proof over loop-nest interpreters and a store-with-handles model + translator for kernel / product / elementwise-loop "
@@ -82,6 +91,8 @@ RULE = ("cases: random field K in {int, double, complex<double>, GF(32003)} x op
         "(divisions outside the exact domain are trivial)")
 ASSUMPTIONS = [
     "the signature tables of the kernels, of the product / transposition loop nests, of multAssign(Transposed) and of the elementwise DenseVector loops and dot products are regenerated from the source by tools/translators/tr_c01.py (a statement outside its grammar makes the obligation fail); the fresh-result loops FieldVector*k, k*v, v/k, FieldMatrix +,-,*k,k*,/k and the unary minus of DenseMatrix as well (round four); the 1x1 / size-1 specialisations, the row-wise delegation of the DenseMatrix compound assignments, DiagonalMatrix*DiagonalMatrix and the conversions are hand-written in lean/DuneVerif/Model/C01.lean and Driver/C01.lean and tied to the code by this differential run",
+    "translator tolerance (round five): before matching, tr_c01.py inlines statement-level calls of private member helpers (no return value, no locals; arguments substituted for parameters), alpha-renames the declared locals the grammar names (C, result, AT, z), inlines `const` index locals initialised from an extent (size(), rows(), M.cols(), ROWS ...), reads `B>i` / `i!=B` / `i+=1` loop headers and `L = L op E` as the canonical forms, and reads a by-reference range-for or begin()/end() iterator loop over *this in the elementwise DenseVector loops as the index loop - the latter only while begin(), end() and DenseIterator::dereference/increment/equals in densevector.hh have the expected text (checked on every run); everything else (helpers with results or locals, count-down loops, std algorithms) stays outside the grammar and is reported",
+    "scalar arguments are values: a scalar passed by reference that lives inside the object being modified (v *= v[0], A *= A[0][0], v.axpy(v[0], w)) is an unstated aliasing precondition of the library and outside the property; the harness always passes a separate scalar object",
     "a kernel's x and y are distinct objects (asserted by the code for mv/mtv only; decided outside the property); the binary operations of a history (=, +=, -=, axpy, leftmultiply, rightmultiply) are executed and proved also with the target as its own argument, the definition being evaluated on the entries held when the call is made; otherwise distinct objects of a history have distinct storage",
     "object histories: what the assignment operators of ScalarVectorView / ScalarMatrixView do with their pointer and what transposedView holds is regenerated from the source (Gen.svv_*, Gen.smv_*, Gen.tvHolds); which overload `object = object` selects for a pair of kinds (same view type / view of the other constness / conversion to the scalar / the owning class's entry copy), `= scalar` and the availability table of the operations are hand-written in Model/C01/Store.lean and tied to the code by the differential run",
     "entries are small integers, so int does not overflow and double / complex<double> arithmetic is exact; floating-point rounding is not part of the property",
